@@ -462,6 +462,11 @@ func (f *Fixture) LeakedMutexes(grace time.Duration) []string {
 				return true
 			}
 			if time.Now().After(deadline) {
+				// still held: by a write that is in progress on that connection (a legitimate
+				// holder, however slow), or by nobody who will ever release it?
+				if pc := f.L.Peer(cl.GlobalIP); pc != nil && pc.InWrite() {
+					return true
+				}
 				out = append(out, k.(string))
 				return true
 			}
